@@ -77,7 +77,7 @@ func x5sTypeOf(rt reflect.Type, iss *x5sTypeIssues, where string) map[string]any
 			}
 			tag := sf.Tag.Get("nbt")
 			name, opts, _ := strings.Cut(tag, ",")
-			f := map[string]any{"omit": false, "list": false, "skip": false, "emb": false}
+			f := map[string]any{"omit": false, "list": false, "skip": false, "emb": false, "ut": false}
 			if tag == "-" {
 				f["skip"], f["name"], f["ty"] = true, []int{}, map[string]any{"k": "str"}
 				fs = append(fs, f)
@@ -109,6 +109,7 @@ func x5sTypeOf(rt reflect.Type, iss *x5sTypeIssues, where string) map[string]any
 			}
 			if name == "" {
 				name = sf.Name
+				f["ut"] = true // the name is the Go field's, not a tag's (matters when two fields claim one name)
 			}
 			f["name"] = ints([]byte(name))
 			f["ty"] = x5sTypeOf(ft, iss, where+"."+name)
